@@ -28,6 +28,7 @@ def run(ctx):
     check_negate(ctx, prog)
     check_printf(ctx, prog)
     check_resize_keep(ctx, prog)
+    check_search_restart(ctx, prog)
     return __doc__.split('\n\n', 1)[1]
 
 
@@ -344,3 +345,65 @@ def check_resize_keep(ctx, prog):
         except bytesets.Undecidable as ex:
             ctx.undecided('C03.keep', f['pq'], 'resize:kept content includes the terminator (copy from %s)' % src['f'], fwhere(f, c['l']), 'copy length not evaluable: %s' % ex)
     ctx.floor('C03.keep', n, 2)
+
+
+# ------------------------------------------------------------------ C03.search
+
+def check_search_restart(ctx, prog):
+    """C03.search: a scan for the *last* occurrence by repeated indexOf(s, from) restarts one position after each match.  A larger
+    step (e.g. the pattern length) skips occurrences that overlap the previous match ("aaa".lastIndexOf("aa") must be 1).
+    Decided on the writes of the restart variable inside the loop: the total advance per iteration evaluates to exactly 1."""
+    import bytesets
+    n = 0
+    for f in prog.functions:
+        if f.get('pq') != 'asl::String::lastIndexOf' or not f.get('body'):
+            continue
+        loops = [s_ for s_ in ir.walk_stmts(f['body']) if s_.get('k') in ('while', 'for', 'do')]
+        for lp in loops:
+            exprs = list(ir.stmt_exprs(lp['body'])) + list(walk_expr(lp.get('c') or {})) + list(walk_expr(lp.get('inc') or {}))
+            searches = [e for e in exprs if e.get('k') == 'call' and (e.get('pq') or '').endswith('String::indexOf') and len(e.get('a', [])) == 2 and strip(e['a'][1]).get('k') == 'var']
+            if not searches:
+                continue
+            n += 1
+            ctx.analysed(f)
+            iv = strip(searches[0]['a'][1])
+            role = 'lastIndexOf%s:restart one position after each match' % f['sig']
+            total = 0
+            bad = None
+            for e in exprs:
+                tgt = None
+                if e.get('k') == 'un' and e.get('op') in ('post++', 'pre++', 'post--', 'pre--'):
+                    tgt = strip_lv(e['e'])
+                    d = 1 if '++' in e['op'] else -1
+                elif e.get('k') == 'bin' and e.get('op') in ('+=', '-='):
+                    tgt = strip_lv(e['x'])
+                    try:
+                        d = bytesets.Evaluator(prog, f).ev(e['y']) * (1 if e['op'] == '+=' else -1)
+                    except bytesets.Undecidable:
+                        d = None
+                elif e.get('k') == 'bin' and e.get('op') == '=':
+                    tgt = strip_lv(e['x'])
+                    r = strip(e['y'])
+                    if tgt.get('k') == 'var' and tgt.get('id') == iv['id']:
+                        if r.get('k') == 'call' and (r.get('pq') or '').endswith('String::indexOf'):
+                            continue            # i = indexOf(s, i): the match itself
+                        if r.get('k') == 'bin' and r.get('op') == '+' and strip(r['x']).get('id') == iv['id'] and const_val(r['y']) is not None:
+                            d = const_val(r['y'])
+                        else:
+                            d = None
+                    else:
+                        continue
+                else:
+                    continue
+                if tgt is None or tgt.get('k') != 'var' or tgt.get('id') != iv['id']:
+                    continue
+                if d is None:
+                    bad = 'the restart position `%s` is advanced by `%s`, which is not the constant 1' % (iv.get('n'), pe(e))
+                else:
+                    total += d
+            ctx.evaluations += 1
+            if bad is None and total != 1:
+                bad = 'the restart position `%s` is advanced by %d per match' % (iv.get('n'), total)
+            ctx.check(bad is None, 'C03.search', f['pq'], role, fwhere(f, lp['l']), 'advance of 1 after each match',
+                      '%s: an occurrence that overlaps the previous match is skipped, so the position returned is not the last one ("aaa".lastIndexOf("aa") gives 0)' % bad)
+    ctx.floor('C03.search', n, 1)
